@@ -60,6 +60,7 @@ class KexDH:  # pragma: nocover
         self.__hostkey_n_len = 0  # Length of the host key modulus.
         self.__ca_key_type = ''  # Type of CA key ('ssh-rsa', etc).
         self.__ca_n_len = 0  # Length of the CA key modulus (if hostkey is a cert).
+        self.__ca_n = 0  # The CA key modulus (if hostkey is a cert signed by an RSA CA).
 
     def set_params(self, g: int, p: int) -> None:
         self.__g = g
@@ -87,6 +88,7 @@ class KexDH:  # pragma: nocover
         self.__hostkey_n_len = 0
         self.__ca_key_type = ''
         self.__ca_n_len = 0
+        self.__ca_n = 0
 
         packet_type, payload = s.read_packet(2)
 
@@ -214,6 +216,8 @@ class KexDH:  # pragma: nocover
 
                 # CA's modulus.  Bingo.
                 ca_key_n, ca_key_n_len, ptr = KexDH.__get_bytes(ca_key, ptr)  # pylint: disable=unused-variable
+                if ca_key_type == 'ssh-rsa' and ca_key_n_len > 0:
+                    self.__ca_n = int(binascii.hexlify(ca_key_n), 16)
 
                 if ca_key_type.startswith("ecdsa-sha2-nistp") and ca_key_n_len > 0:
                     self.out.d("Found ecdsa-sha2-nistp* CA key type.")
@@ -254,6 +258,9 @@ class KexDH:  # pragma: nocover
 
     # Returns the size of the hostkey, in bits.
     def get_hostkey_size(self) -> int:
+        # RSA moduli are measured exactly (a 2040-bit modulus must not be reported as 2048-bit).
+        if self.__hostkey_type.startswith('ssh-rsa') and self.__hostkey_n > 0:
+            return self.__hostkey_n.bit_length()
         return KexDH.__adjust_key_size(self.__hostkey_n_len)
 
     # Returns the CA type ('ssh-rsa', 'ssh-ed25519', etc).
@@ -262,6 +269,8 @@ class KexDH:  # pragma: nocover
 
     # Returns the size of the CA key, in bits.
     def get_ca_size(self) -> int:
+        if self.__ca_key_type == 'ssh-rsa' and self.__ca_n > 0:
+            return self.__ca_n.bit_length()
         return KexDH.__adjust_key_size(self.__ca_n_len)
 
     # Returns the size of the DH modulus, in bits.
